@@ -21,7 +21,8 @@ for d in sorted(glob.glob(os.path.join(root, '*/'))):
         runs = re.search(r'(\d+) runs \(', block)
         n = sum(int(c[1]) for c in classes)
         if classes:
-            checks.append(f"{prop}: caught — {len(classes)} class(es), e.g. `{classes[0][0][:70]}` in {classes[0][1]} of {runs.group(1) if runs else '?'} runs")
+            top = max(classes, key=lambda c: int(c[1]))
+            checks.append(f"{prop}: caught — {len(classes)} class(es) minimised and replayed, most frequent `{top[0][:80]}` in {top[1]} of {runs.group(1) if runs else '?'} runs")
         else:
             checks.append(f"{prop}: not caught ({runs.group(1) if runs else '?'} runs)")
     rows.append((name, meta.get('property', '?'), meta.get('files_changed', []), meta.get('what_it_breaks', '')[:420], meta.get('needs_to_manifest', '')[:420], checks))
